@@ -114,9 +114,8 @@ theorem afterlong_counts (c : Cfg) (s : St) (i : In) (hp : s.period = 4) (hne : 
     (hnf : transition c s i ≠ fFinished) :
     (applyBlock c s i).cnt = s.cnt + 1 ∧ (applyBlock c s i).shardsNum = s.shardsNum := by
   unfold applyBlock afterLongAccount
-  simp only [hp, hne, hcer]
-  simp only [hnf]
-  split <;> simp
+  simp only [hnf, if_false, hne, hcer]
+  split <;> simp [hp]
 
 /-- … the counter alone makes the epoch completable … -/
 theorem cnt_completes (s : St) (h : s.cnt ≥ afterLongRequired * 2 * s.shardsNum) : canComplete s = true := by
